@@ -7,6 +7,7 @@
 
 #![allow(missing_docs, dead_code, clippy::all)]
 
+pub mod cli;
 pub mod clock;
 pub mod pure;
 pub mod sched;
